@@ -251,6 +251,7 @@ pub fn run_random(tr: &mut Trace, run: u64, seed: u64, prof: Profile) -> RunStat
     let tail_start = p.t_ms();
     p.log_probe = false;
     let mut quiet_rounds = 0;
+    let mut quiet_since: Option<u64> = None;
     let mut iter: u64 = 0;
     while !p.dead {
         let el = p.t_ms() - tail_start;
@@ -265,15 +266,20 @@ pub fn run_random(tr: &mut Trace, run: u64, seed: u64, prof: Profile) -> RunStat
         }
         iter += 1;
         let idle = |p: &Pair, e: usize| !p.ep[e].last_pending && p.ep[e].last_bufsize == 0;
-        if idle(&p, 0) && idle(&p, 1) && p.net.is_empty() {
+        if idle(&p, 0) && idle(&p, 1) {
+            // stay idle for longer than a round trip (keep-alive traffic may go on for ever), so that
+            // frames still in flight are handled and a final receive() has run
+            if quiet_since.is_none() {
+                quiet_since = Some(p.t_ms());
+            }
             quiet_rounds += 1;
-            // a few more rounds so that acks in flight and a final receive() are processed
-            if quiet_rounds >= 3 {
+            if quiet_rounds >= 3 && p.t_ms() - quiet_since.unwrap() >= 2 * latency + 200 {
                 st.quiesced = true;
                 break;
             }
         } else {
             quiet_rounds = 0;
+            quiet_since = None;
         }
         let _ = iter;
     }
